@@ -523,9 +523,23 @@ ASTNode *ExpressionParser::parseRelational() {
 ASTNode *ExpressionParser::parseShift() {
     ASTNode *left = parseAdditive();
 
-    while (parser_->check(TokenType::TOK_LEFT_SHIFT) ||
-           parser_->check(TokenType::TOK_RIGHT_SHIFT)) {
+    while (true) {
+        // While type parameters are in scope RecursiveParser::advance() splits
+        // every `>>` into two `>` tokens (needed to close `Box<Box<T>>`).  In
+        // operator position after a complete operand the pair can only be the
+        // shift operator, so put it back together here: the current token is
+        // the first half exactly when the second half is still pending.
+        bool split_right_shift = parser_->check(TokenType::TOK_GT) &&
+                                 parser_->has_split_gt_token_;
+        if (!split_right_shift && !parser_->check(TokenType::TOK_LEFT_SHIFT) &&
+            !parser_->check(TokenType::TOK_RIGHT_SHIFT)) {
+            break;
+        }
         Token op = parser_->advance();
+        if (split_right_shift) {
+            parser_->advance(); // second half of the split `>>`
+            op = Token(TokenType::TOK_RIGHT_SHIFT, ">>", op.line, op.column);
+        }
         ASTNode *right = parseAdditive();
 
         ASTNode *binary = new ASTNode(ASTNodeType::AST_BINARY_OP);
